@@ -39,7 +39,8 @@ class Facts:
                 stopped = True
             if op[0] == "connect" and not stopped:
                 self.connect_op.append(i)
-        assert len(self.connect_op) == len(self.addr), (self.connect_op, self.addr)
+        if len(self.connect_op) != len(self.addr):
+            raise RuntimeError("connection numbering does not match the observed connections: %r %r" % (self.connect_op, self.addr))
         self.verify_op: Dict[int, int] = {}
         self.lose_op: Dict[int, int] = {}
         for i, op in enumerate(ops):
